@@ -75,6 +75,7 @@ def generate(seed, tier):
                 "mode": r.choice(["honest", "honest", "rare"]),
                 "law": r.random() < (0.25 if tier == "thorough" else 0.03),
                 "positional": r.random() < 0.3,
+                "ow_type": r.choice(["bool", "bool", "bool", "np_bool", "int"]),
             }
         )
     if r.random() < 0.01:
@@ -292,17 +293,22 @@ def execute(plan):
                 ref.reset(None, BIGK)  # track as many steps as are drawn; the op-level rule compares with k
             rng.listeners.append(listener)
             rng.stream(op["sub"], mode=op["mode"], rare=0.15)
+            ow = op["overwrite"]
+            if op.get("ow_type") == "np_bool":
+                ow = np.bool_(ow)  # e.g. the result of np.any(...)
+            elif op.get("ow_type") == "int":
+                ow = int(ow)
             run.log.add("op", "sample", j, via, k, kind, op["overwrite"], mi)
             res = None
             try:
                 if via == "rbm":
-                    res = state.rbm_am.gibbs_steps(k, start_t, overwrite=op["overwrite"])
+                    res = state.rbm_am.gibbs_steps(k, start_t, overwrite=ow)
                 elif kind == "fresh":
                     res = state.sample(k, st["n"]) if op.get("positional") else state.sample(k, num_samples=st["n"])
                 elif op.get("positional"):
-                    res = state.sample(k, 7, start_t, op["overwrite"])  # num_samples is ignored when a start state is given
+                    res = state.sample(k, 7, start_t, ow)  # num_samples is ignored when a start state is given
                 else:
-                    res = state.sample(k, initial_state=start_t, overwrite=op["overwrite"])
+                    res = state.sample(k, initial_state=start_t, overwrite=ow)
             except Exception as exc:  # noqa: BLE001
                 run.lib_exception(exc, f"sample op {j}", k=k, start=kind)
             finally:
